@@ -102,3 +102,140 @@ def entails(g, t):
 
 def satisfiable_with(g, extra):
     return not unsat(sp.And(g, extra))
+
+
+# ---- linear arithmetic over several variables: Fourier–Motzkin (exact rationals), Abs by case split -------------------------
+def _lin_form(e):
+    """expr -> ({monomial: coeff}, const); non-linear monomials are treated as opaque variables (sound for unsat)."""
+    e = sp.expand(e)
+    coeffs = {}
+    const = sp.Integer(0)
+    for t in sp.Add.make_args(e):
+        c, m = t.as_coeff_Mul()
+        if m == 1:
+            const += c
+        else:
+            coeffs[m] = coeffs.get(m, 0) + c
+    return {k: v for k, v in coeffs.items() if v != 0}, const
+
+
+def _abs_free(lits):
+    """Case split on the sign of every Abs argument / sign(); yields lists of literals without Abs."""
+    lits = list(lits)
+    for l in lits:
+        for a in l.atoms(sp.Abs):
+            arg = a.args[0]
+            out = []
+            for branch, rep in ((sp.Ge(arg, 0), arg), (sp.Lt(arg, 0), -arg)):
+                out += _abs_free([x.subs(a, rep) for x in lits] + [branch])
+            return out
+        for a in l.atoms(sp.sign):
+            arg = a.args[0]
+            out = []
+            for branch, rep in ((sp.Gt(arg, 0), 1), (sp.Lt(arg, 0), -1), (sp.Eq(arg, 0), 0)):
+                out += _abs_free([x.subs(a, rep) for x in lits] + [branch])
+            return out
+    return [lits]
+
+
+def _fm_unsat(rows):
+    """rows: list of (coeffs, const, strict) meaning Σ c_i x_i + const <= 0 (or < 0). Exact Fourier–Motzkin."""
+    rows = [(dict(c), k, s) for c, k, s in rows]
+    for _ in range(64):
+        # trivial rows
+        keep = []
+        for c, k, s in rows:
+            if not c:
+                if k > 0 or (s and k >= 0):
+                    return True
+                continue
+            keep.append((c, k, s))
+        rows = keep
+        if not rows:
+            return False
+        vars_ = sorted({v for c, _, _ in rows for v in c}, key=sp.default_sort_key)
+        if not vars_:
+            return False
+        v = min(vars_, key=lambda x: sum(1 for c, _, _ in rows if c.get(x, 0) > 0) * sum(1 for c, _, _ in rows if c.get(x, 0) < 0))
+        pos = [r for r in rows if r[0].get(v, 0) > 0]
+        neg = [r for r in rows if r[0].get(v, 0) < 0]
+        rest = [r for r in rows if r[0].get(v, 0) == 0]
+        new = list(rest)
+        for cp, kp, sp_ in pos:
+            for cn, kn, sn in neg:
+                a, b = cp[v], -cn[v]
+                c = {}
+                for x in set(cp) | set(cn):
+                    if x == v:
+                        continue
+                    val = cp.get(x, 0) * b + cn.get(x, 0) * a
+                    if val != 0:
+                        c[x] = val
+                new.append((c, kp * b + kn * a, sp_ or sn))
+        if len(new) > 4000:
+            return False
+        rows = new
+    return False
+
+
+def lin_conj_unsat(lits):
+    for case in _abs_free(lits):
+        rows = []
+        feasible_unknown = False
+        ne = []
+        for l in case:
+            if l is sp.true:
+                continue
+            if l is sp.false:
+                rows = None
+                break
+            if isinstance(l, sp.Not) and isinstance(l.args[0], Relational):
+                l = l.args[0].negated
+            if isinstance(l, sp.Ne):
+                ne.append(l)
+                continue
+            if not isinstance(l, Relational):
+                continue     # boolean atoms are ignored here (sound: fewer constraints)
+            e = l.lhs - l.rhs
+            c, k = _lin_form(e)
+            if isinstance(l, sp.Le):
+                rows.append((c, k, False))
+            elif isinstance(l, sp.Lt):
+                rows.append((c, k, True))
+            elif isinstance(l, sp.Ge):
+                rows.append(({x: -v for x, v in c.items()}, -k, False))
+            elif isinstance(l, sp.Gt):
+                rows.append(({x: -v for x, v in c.items()}, -k, True))
+            elif isinstance(l, sp.Eq):
+                rows.append((c, k, False))
+                rows.append(({x: -v for x, v in c.items()}, -k, False))
+        if rows is None:
+            continue
+        # disequalities: split (at most a few)
+        def rec(rows, ne):
+            if not ne:
+                return _fm_unsat(rows)
+            l = ne[0]
+            c, k = _lin_form(l.lhs - l.rhs)
+            return rec(rows + [(c, k, True)], ne[1:]) and rec(rows + [({x: -v for x, v in c.items()}, -k, True)], ne[1:])
+        if not rec(rows, ne[:4]):
+            return False
+    return True
+
+
+def lin_unsat(f):
+    f = sp.sympify(f)
+    if f is sp.false:
+        return True
+    if f is sp.true:
+        return False
+    try:
+        d = sp.to_dnf(f, simplify=False)
+    except Exception:
+        return False
+    conjs = d.args if isinstance(d, sp.Or) else (d,)
+    return all(lin_conj_unsat(c.args if isinstance(c, sp.And) else (c,)) for c in conjs)
+
+
+def lin_entails(g, t):
+    return lin_unsat(sp.And(g, sp.Not(t)))
